@@ -162,6 +162,8 @@ def image_pair_cases(draw):
         "image": img, "style": draw(st.sampled_from(["block", "kitty", "iterm2"])),
         "repeat": draw(st.sampled_from([2, 3, -1])), "cached": draw(st.sampled_from([True, n, n + 1, 100])),
         "spec": draw(st.sampled_from(["", "1.1", "<8.^5", ">7._4#", "|6.-3##", "#.5", "#102030"])),
+        # a per-iteration override of style arguments (graphics styles), e.g. the render method
+        "sspec": draw(st.sampled_from(["", "", "+W", "+L", "+Lc0", "+Wm1"])),
         "ops": ops, "cols": draw(st.integers(4, 12)), "rows": draw(st.integers(4, 8)),
     }
 
@@ -173,6 +175,11 @@ def check_image_pair(case, rec):
     path = gen.anim_file(case["image"])
     ia, ib = cls.from_file(path), cls.from_file(path)
     spec = case["spec"]
+    ss = case.get("sspec", "")
+    if ss and case["style"] != "block":
+        if case["style"] == "iterm2":
+            ss = {"+Lc0": "+Lc0", "+Wm1": "+W"}.get(ss, ss)
+        spec += ss
     try:
         A = I.ImageIterator(ia, case["repeat"], spec, False)
         B = I.ImageIterator(ib, case["repeat"], spec, case["cached"])
